@@ -258,8 +258,15 @@ type pending struct {
 }
 
 type checker struct {
-	rep  *report.Report
-	pend []pending
+	rep      *report.Report
+	pend     []pending
+	pendCost []pendingCost
+}
+
+func lineprotoRun(ops []string) ([]string, error) { return lineproto.Run(*driver, ops) }
+
+func reportDis(kind, input, impl, model string) report.Disagreement {
+	return report.Disagreement{Kind: kind, Input: input, Impl: impl, Model: model}
 }
 
 func (c *checker) expect(kind, op, impl string) {
@@ -538,6 +545,8 @@ func main() {
 			runC03(c, r)
 		case "C12":
 			runC12(c, r)
+		case "C13":
+			runC13(c, r)
 		default:
 			fmt.Fprintln(os.Stderr, "unknown property", *prop)
 			os.Exit(2)
